@@ -6,7 +6,7 @@ Every postcondition below is phrased over that spec function and the ghost file 
 """
 import types
 import z3
-from pyvc.core import (I, B, And, Or, Not, Implies, Ite, in_range, Forall, SArr, SRec, SFile, SymList, conc)
+from pyvc.core import (I, B, And, Or, Not, Implies, Ite, Max, in_range, Forall, SArr, SRec, SFile, SymList, conc)
 from pyvc.verify import Contract
 from pyvc import npmodel as M
 
@@ -531,3 +531,87 @@ fast_sequences = Contract("C17.IndexedFasta._get_interval_sequences_fast[LF reco
                                     ("segments placed at the inclusive prefix sums", "offsets = np.insert(np.cumsum(lengths), 0, 0)", "offsets = np.cumsum(lengths)"),
                                     ("start offset without the column", "start_offsets = start_rows*indices.line_length+start_mods", "start_offsets = start_rows*indices.line_length")])
 CONTRACTS.append(fast_sequences)
+
+
+# ---------------------------------------------------------------------------------------------
+# FastaIdxBuffer.get_data: the index rows of one chunk of a wrapped FASTA (offsets relative to the chunk; create_index adds the chunk sizes).
+# State of the buffer as MultiLineFastaBuffer.from_raw_buffer builds it (C01 contract): `_data` = N bytes ending in a newline, `_new_lines` = the
+# positions of all newline bytes but the last one (nl(0) < nl(1) < ...), `_new_entries` = the indices k with data[nl(k)+1] == '>' (strictly
+# increasing).  Line j starts at ls(j) = 0 / nl(j-1)+1 and its newline is at le(j) = nl(j) / N-1; header lines are h(0) = 0, h(e) = ne(e-1)+1.
+def _FIB():
+    from bionumpy.io.multiline_buffer import FastaIdxBuffer
+    return FastaIdxBuffer
+
+
+def _setup_gd(ctx):
+    st = St()
+    st.N, st.L, st.E1 = z3.Int("n_bytes"), z3.Int("n_inner_newlines"), z3.Int("n_entries_minus_1")
+    st.D = z3.Function("byte", z3.IntSort(), z3.IntSort())
+    st.nl = z3.Function("newline_pos", z3.IntSort(), z3.IntSort())
+    st.ne = z3.Function("entry_newline_idx", z3.IntSort(), z3.IntSort())
+    st.data = SArr.fresh(st.N, lambda p: st.D(I(p)), enc="BaseEncoding")
+    st.selfv = SRec(_FIB(), _data=st.data, _new_lines=SArr.fresh(st.L, lambda j: st.nl(I(j))), _new_entries=SArr.fresh(st.E1, lambda e: st.ne(I(e))),
+                    _is_validated=True)
+    st.args = []
+    from bionumpy.io.multiline_buffer import FastaIdxBuilder
+    names = ("chromosome", "length", "start", "characters_per_line", "line_length", "byte_size")
+
+    def ctor(ip, args, kwargs, lineno):
+        st.row_args = dict(zip(names, args))
+        st.row_args.update(kwargs)
+        return types.SimpleNamespace(cols=st.row_args)
+    ctx.ip.class_models[FastaIdxBuilder] = ctor       # the generated dataclass __init__ is abstract: the observation point is the constructor call
+    return st
+
+
+def _gd_lines(st):
+    ls = lambda j: Ite(I(j) == 0, 0, st.nl(I(j) - 1) + 1)
+    le = lambda j: Ite(I(j) < st.L, st.nl(I(j)), st.N - 1)
+    h = lambda e: Ite(I(e) == 0, 0, st.ne(I(e) - 1) + 1)
+    return ls, le, h
+
+
+def _req_gd(ctx, st):
+    return [st.N >= 1, st.L >= 0, st.E1 >= 0,
+            Forall(lambda p: And(st.D(p) >= 0, st.D(p) < 256), triggers=[st.D], name="bytes"),
+            Forall(lambda j: Implies(in_range(j, st.L), And(st.nl(j) >= 0, st.nl(j) < st.N - 1)), triggers=[st.nl], name="inner newlines lie before the last byte"),
+            Forall(lambda j: Implies(And(in_range(j, st.L), j + 1 < st.L), st.nl(j) < st.nl(j + 1)), triggers=[st.nl], name="newline positions increase"),
+            Forall(lambda e: Implies(in_range(e, st.E1), And(st.ne(e) >= 0, st.ne(e) + 1 < st.L + 1 - 0, st.ne(e) + 1 <= st.L - 1 + 1 - 1 + 0)), triggers=[st.ne],
+                   name="every later header line is followed by at least one more line (an entry has a sequence line)"),
+            Forall(lambda e: Implies(And(in_range(e, st.E1), e + 1 < st.E1), st.ne(e) + 1 < st.ne(e + 1)), triggers=[st.ne], name="header lines increase and are not adjacent"),
+            Implies(st.E1 > 0, st.ne(0) >= 1), st.L >= 1,
+            Forall(lambda j: Implies(in_range(j, st.L), st.D(st.nl(j) - 1) != 13), triggers=[st.nl], name="LF line ends (no carriage returns)"), st.D(st.N - 2) != 13]
+
+
+def _ens_gd(ctx, st, ret):
+    ls, le, h = _gd_lines(st)
+    E = st.E1 + 1
+    cols = ret.cols if hasattr(ret, "cols") else None
+    st.ret = ret
+    out = [("a.table.is.returned", cols is not None)]
+    if cols is None:
+        return out
+    off, lenc, lenb, bs, names = cols["start"], cols["characters_per_line"], cols["line_length"], cols["byte_size"], cols["chromosome"]
+    return out + [
+        ("names: one row per entry", I(names.n) == E),
+        ("names: row e has the length of the header line of entry e without its '>' and its newline",
+         Forall(lambda e: Implies(in_range(e, E), I(names.lens(e)) == Max(le(h(e)) - ls(h(e)) - 1, 0)))),
+        ("names: row e is the text of the header line of entry e after its '>'",
+         Forall(lambda e, k: Implies(And(in_range(e, E), in_range(k, le(h(e)) - ls(h(e)) - 1)), names.at(e, k) == st.D(ls(h(e)) + 1 + k)), nvars=2)),
+        ("byte_size: one per entry", I(bs.count) == E),
+        ("byte_size: every row carries the chunk size", Forall(lambda e: Implies(in_range(e, E), I(bs.at(e)) == st.N))),
+        ("one.row.per.entry", And(I(off.length) == E, I(lenc.length) == E, I(lenb.length) == E)),
+        ("offset: first base of entry e is the byte after its header's newline", Forall(lambda e: Implies(in_range(e, E), off.at(e) == le(h(e)) + 1))),
+        ("lenc: bases in the first sequence line", Forall(lambda e: Implies(in_range(e, E), lenc.at(e) == le(h(e) + 1) - (le(h(e)) + 1)))),
+        ("lenb: bytes of the first sequence line with its newline", Forall(lambda e: Implies(in_range(e, E), lenb.at(e) == le(h(e) + 1) + 1 - (le(h(e)) + 1)))),
+        ]
+
+
+fasta_idx_rows = Contract("C17.FastaIdxBuffer.get_data", target=lambda: _FIB().get_data, setup=_setup_gd, requires=_req_gd, ensures=_ens_gd,
+                          may_raise=[("IndexError", "gather.inbounds", "seq_lens_ends_line_offsets"), ("ValueError", "ragged.size", "sequences_RaggedArray")],
+                          note="partial: the `length` column (sum of the entry's sequence-line lengths) is not under this contract - bounded (rtc/enum_c17.py)",
+                          canaries=[("byte size one short", "[self._data.size]*len(headers)", "[self._data.size-1]*len(headers)"),
+                                    ("offset of the header line", "seq_starts = line_starts[new_entries+1]", "seq_starts = line_starts[new_entries]"),
+                                    ("line length without the newline", "line_lens+1,", "line_lens,"),
+                                    ("bases per line from the header", "seq_line_ends = line_ends[new_entries+1]", "seq_line_ends = line_ends[new_entries]")])
+CONTRACTS.append(fasta_idx_rows)
